@@ -586,36 +586,45 @@ Definition q2_oracle (ops obs : list (list Z)) : bool :=
   && prefix_b (map snd vals) pushed.
 
 (* =====================================================================================
-   Interleaving model: producer / consumer / unblock_pop threads over queue<T> (limit = None) or
-   limited_queue<T> (limit = Some n).  One step = one critical section (entered at the hook point q_lock, code 70),
-   or the resolution of a promise taken inside a critical section, which the code performs AFTER unlocking
-   (hook point q_res, code 71: queue.h 153-154, 228-229, 279-280, 315-316), or a thread noticing that the future
-   it waits for is ready (harness point q_wait, code 72).  A schedule is a list of choices: choice k runs the
-   (k mod |enabled|)-th enabled thread (ascending thread id), exactly as harness/ctl.h does.
+   Interleaving model: producer / consumer / unblock_pop / unblock_push / size / destroy threads over queue<T>
+   (limit = None) or limited_queue<T> (limit = Some n).  One step = one critical section (entered at the hook point
+   q_lock, code 70), or the resolution of a promise taken inside a critical section, which the code performs AFTER
+   unlocking (hook point q_res, code 71: queue.h 153-154, 228-229, 279-280, 315-316, 342-343), or a thread noticing that
+   the future it waits for is ready (harness point q_wait, code 72), or the destruction of the queue (harness point
+   q_destroy, code 73), which the destroying thread may only start when no other thread can take a step (every other
+   thread has finished or waits for a future: C++ object lifetime).  After destruction no thread touches the queue.
+   A schedule is a list of choices: choice k runs the (k mod |enabled|)-th enabled thread (ascending thread id), exactly
+   as harness/ctl.h does.
    ===================================================================================== *)
 Record titem := mkIt { it_p : nat; it_k : nat; it_v : Z }.      (* pushed by thread it_p as its it_k-th push *)
-Inductive outcome := OItem (it : titem) | OExc (e : Z).
+Inductive outcome := OItem (it : titem) | OExc (e : Z) | OCancel.
 
-Inductive ppc := PIdle | PRes | PWait (blocked : bool).
+Inductive ppc := PIdle | PRes (blocked : bool) | PWait (blocked : bool).
 Inductive cpc := CIdle | CRes | CWait.
 Inductive upc := UIdle | URes.
 
 Inductive thr :=
 | TProd (vals : list Z) (k : nat) (pc : ppc) (nb : nat) (rets : list Z)   (* k pushes entered; nb blocked pushes consumed *)
 | TCons (n : nat) (issued : nat) (pc : cpc)
-| TUnb (n : nat) (e : Z) (pc : upc) (rets : list Z).
+| TUnb (n : nat) (e : Z) (pc : upc) (rets : list Z)                       (* unblock_pop(e), n times *)
+| TUnbPush (n : nat) (e : Z) (pc : upc) (rets : list Z)                   (* unblock_push(e), n times (limited_queue) *)
+| TSize (n : nat) (pc : upc) (rets : list Z)                              (* size(), n times *)
+| TDestroy (done : bool).
 
 Record tstate := mkT {
   t_items : list titem;                      (* _queue *)
   t_waiters : list nat;                      (* _awaiters: consumer thread ids, oldest first *)
   t_blocked : list (titem * nat);            (* _blocked: (item, producer thread id) *)
   t_limit : option Z;
+  t_dead : bool;                             (* the queue object has been destroyed *)
   t_infl : list (nat * (nat * outcome));     (* promise<T> taken by thread i for consumer c, not resolved yet *)
-  t_cinfl : list (nat * nat);                (* promise<void> of blocked producer p taken by consumer i, not resolved yet *)
+  t_cinfl : list (nat * (nat * Z));          (* promise<void> of blocked producer p taken by thread i, not resolved yet (code) *)
   t_rlog : list (nat * outcome);             (* resolutions of pop futures, in resolution order: (consumer, outcome) *)
-  t_pdone : list nat;                        (* completions of blocked pushes: producer ids, in completion order *)
+  t_pdone : list (nat * Z);                  (* resolutions of blocked pushes: (producer, 0 done | e failed | -1 canceled) *)
   t_alog : list (nat * titem);               (* ghost: item -> pop assignments in critical-section order *)
   t_plog : list titem;                       (* ghost: items in push critical-section order *)
+  t_wlog : list titem;                       (* ghost: items withdrawn by unblock_push *)
+  t_dlog : list titem;                       (* ghost: items destroyed with the queue *)
   t_thr : list thr
 }.
 
@@ -625,24 +634,56 @@ Fixpoint afind {B} (k : nat) (l : list (nat * B)) : option B :=
 Fixpoint aremove {B} (k : nat) (l : list (nat * B)) : list (nat * B) :=
   match l with [] => [] | (k', b) :: t => if Nat.eqb k k' then t else (k', b) :: aremove k t end.
 
+Definition pcodes (p : nat) (l : list (nat * Z)) : list Z := map snd (filter (fun x => Nat.eqb p (fst x)) l).
+
+(* enabledness of every thread but the destroyer *)
+Definition t_enabled0 (s : tstate) (i : nat) : bool :=
+  match nth_error (t_thr s) i with
+  | Some (TProd vals k PIdle _ _) => negb (t_dead s) && Nat.ltb k (length vals)
+  | Some (TProd _ _ (PRes _) _ _) => true
+  | Some (TProd _ _ (PWait false) _ _) => true
+  | Some (TProd _ _ (PWait true) nb _) => Nat.ltb nb (length (pcodes i (t_pdone s)))   (* its push future was resolved *)
+  | Some (TCons n issued CIdle) => negb (t_dead s) && Nat.ltb issued n
+  | Some (TCons _ _ CRes) => true
+  | Some (TCons _ issued CWait) => Nat.eqb (count_n i (map fst (t_rlog s))) issued     (* its pop future is ready *)
+  | Some (TUnb n _ UIdle rets) => negb (t_dead s) && Nat.ltb (length rets) n
+  | Some (TUnb _ _ URes _) => true
+  | Some (TUnbPush n _ UIdle rets) => negb (t_dead s) && Nat.ltb (length rets) n
+  | Some (TUnbPush _ _ URes _) => true
+  | Some (TSize n UIdle rets) => negb (t_dead s) && Nat.ltb (length rets) n
+  | Some (TSize _ URes _) => true
+  | Some (TDestroy _) => false
+  | None => false
+  end.
+
+(* the destroyer may run only when nobody else can: every other thread has finished or waits for a future *)
 Definition t_enabled (s : tstate) (i : nat) : bool :=
   match nth_error (t_thr s) i with
-  | Some (TProd vals k PIdle _ _) => Nat.ltb k (length vals)
-  | Some (TProd _ _ PRes _ _) => true
-  | Some (TProd _ _ (PWait false) _ _) => true
-  | Some (TProd _ _ (PWait true) nb _) => Nat.ltb nb (count_n i (t_pdone s))        (* its push future was completed *)
-  | Some (TCons n issued CIdle) => Nat.ltb issued n
-  | Some (TCons _ _ CRes) => true
-  | Some (TCons _ issued CWait) => Nat.eqb (count_n i (map fst (t_rlog s))) issued  (* its pop future is ready *)
-  | Some (TUnb n _ UIdle rets) => Nat.ltb (length rets) n
-  | Some (TUnb _ _ URes _) => true
-  | None => false
+  | Some (TDestroy d) => negb d && negb (t_dead s) && forallb (fun j => negb (t_enabled0 s j)) (seq 0 (length (t_thr s)))
+  | _ => t_enabled0 s i
   end.
 
 Definition set_thr (s : tstate) (i : nat) (t : thr) : list thr := set_nth (t_thr s) i t.
 
 Definition full (s : tstate) : bool :=
   match t_limit s with Some l => zlen (t_items s) >=? l | None => false end.
+
+Definition push_ret (code : Z) : Z := if code =? 0 then 2 else if code =? -1 then 99 else 100 + code.
+
+(* resolution of the pop promise taken by thread i *)
+Definition resolve_pop (s : tstate) (i : nat) : tstate :=
+  match afind i (t_infl s) with
+  | Some (c, o) => mkT (t_items s) (t_waiters s) (t_blocked s) (t_limit s) (t_dead s) (aremove i (t_infl s)) (t_cinfl s) (t_rlog s ++ [(c, o)]) (t_pdone s) (t_alog s) (t_plog s) (t_wlog s) (t_dlog s) (t_thr s)
+  | None => s
+  end.
+(* resolution of the push promise taken by thread i *)
+Definition resolve_push (s : tstate) (i : nat) : tstate :=
+  match afind i (t_cinfl s) with
+  | Some (p, code) => mkT (t_items s) (t_waiters s) (t_blocked s) (t_limit s) (t_dead s) (t_infl s) (aremove i (t_cinfl s)) (t_rlog s) (t_pdone s ++ [(p, code)]) (t_alog s) (t_plog s) (t_wlog s) (t_dlog s) (t_thr s)
+  | None => s
+  end.
+Definition with_thr (s : tstate) (l : list thr) : tstate := mkT (t_items s) (t_waiters s) (t_blocked s) (t_limit s) (t_dead s) (t_infl s) (t_cinfl s) (t_rlog s) (t_pdone s) (t_alog s) (t_plog s) (t_wlog s) (t_dlog s) (l).
+
 
 (* one step of thread i; returns the hook-point code of the step *)
 Definition tstep (s : tstate) (i : nat) : tstate * Z :=
@@ -651,66 +692,58 @@ Definition tstep (s : tstate) (i : nat) : tstate * Z :=
       let it := mkIt i k (nth k vals 0) in
       match t_waiters s with
       | c :: w =>                                                                   (* 150-153 / 276-279 *)
-          (mkT (t_items s) w (t_blocked s) (t_limit s) (t_infl s ++ [(i, (c, OItem it))]) (t_cinfl s) (t_rlog s) (t_pdone s)
-               (t_alog s ++ [(c, it)]) (t_plog s ++ [it]) (set_thr s i (TProd vals (S k) PRes nb rets)), 70)
+          (mkT (t_items s) (w) (t_blocked s) (t_limit s) (t_dead s) (t_infl s ++ [(i, (c, OItem it))]) (t_cinfl s) (t_rlog s) (t_pdone s) (t_alog s ++ [(c, it)]) (t_plog s ++ [it]) (t_wlog s) (t_dlog s) (set_thr s i (TProd vals (S k) (PRes false) nb rets)), 70)
       | [] =>
           if full s                                                                 (* 283-286 *)
-          then (mkT (t_items s) [] (t_blocked s ++ [(it, i)]) (t_limit s) (t_infl s) (t_cinfl s) (t_rlog s) (t_pdone s)
-                    (t_alog s) (t_plog s ++ [it]) (set_thr s i (TProd vals (S k) (PWait true) nb rets)), 70)
-          else (mkT (t_items s ++ [it]) [] (t_blocked s) (t_limit s) (t_infl s) (t_cinfl s) (t_rlog s) (t_pdone s)   (* 156 / 288 *)
-                    (t_alog s) (t_plog s ++ [it]) (set_thr s i (TProd vals (S k) (PWait false) nb (rets ++ [0]))), 70)
+          then (mkT (t_items s) ([]) (t_blocked s ++ [(it, i)]) (t_limit s) (t_dead s) (t_infl s) (t_cinfl s) (t_rlog s) (t_pdone s) (t_alog s) (t_plog s ++ [it]) (t_wlog s) (t_dlog s) (set_thr s i (TProd vals (S k) (PRes true) nb rets)), 70)
+          else (mkT (t_items s ++ [it]) ([]) (t_blocked s) (t_limit s) (t_dead s) (t_infl s) (t_cinfl s) (t_rlog s) (t_pdone s) (t_alog s) (t_plog s ++ [it]) (t_wlog s) (t_dlog s) (set_thr s i (TProd vals (S k) (PRes false) nb rets)), 70)                                                             (* 156 / 288 *)
       end
-  | Some (TProd vals k PRes nb rets) =>                                             (* 154 / 280 *)
-      let s1 := match afind i (t_infl s) with
-                | Some (c, o) => mkT (t_items s) (t_waiters s) (t_blocked s) (t_limit s) (aremove i (t_infl s)) (t_cinfl s)
-                                     (t_rlog s ++ [(c, o)]) (t_pdone s) (t_alog s) (t_plog s) (t_thr s)
-                | None => s
-                end in
-      (mkT (t_items s1) (t_waiters s1) (t_blocked s1) (t_limit s1) (t_infl s1) (t_cinfl s1) (t_rlog s1) (t_pdone s1)
-           (t_alog s1) (t_plog s1) (set_thr s1 i (TProd vals k (PWait false) nb (rets ++ [1]))), 71)
+  | Some (TProd vals k (PRes b) nb rets) =>                                         (* 154 / 280; after every unlock *)
+      let s1 := resolve_pop s i in
+      (with_thr s1 (set_nth (t_thr s1) i
+         (if b then TProd vals k (PWait true) nb rets
+          else TProd vals k (PWait false) nb (rets ++ [if afind i (t_infl s) then 1 else 0]))), 71)
   | Some (TProd vals k (PWait b) nb rets) =>
-      (mkT (t_items s) (t_waiters s) (t_blocked s) (t_limit s) (t_infl s) (t_cinfl s) (t_rlog s) (t_pdone s) (t_alog s) (t_plog s)
-           (set_thr s i (TProd vals k PIdle (if b then S nb else nb) (if b then rets ++ [2] else rets))), 72)
+      (mkT (t_items s) (t_waiters s) (t_blocked s) (t_limit s) (t_dead s) (t_infl s) (t_cinfl s) (t_rlog s) (t_pdone s) (t_alog s) (t_plog s) (t_wlog s) (t_dlog s) (set_thr s i (TProd vals k PIdle (if b then S nb else nb) (if b then rets ++ [push_ret (nth nb (pcodes i (t_pdone s)) 0)] else rets))), 72)
   | Some (TCons n issued CIdle) =>
       match t_items s with
       | [] =>                                                                       (* 200-201 / 301-302 *)
-          (mkT [] (t_waiters s ++ [i]) (t_blocked s) (t_limit s) (t_infl s) (t_cinfl s) (t_rlog s) (t_pdone s) (t_alog s) (t_plog s)
-               (set_thr s i (TCons n (S issued) CWait)), 70)
+          (mkT ([]) (t_waiters s ++ [i]) (t_blocked s) (t_limit s) (t_dead s) (t_infl s) (t_cinfl s) (t_rlog s) (t_pdone s) (t_alog s) (t_plog s) (t_wlog s) (t_dlog s) (set_thr s i (TCons n (S issued) CRes)), 70)
       | it :: t =>
           match t_blocked s with
           | (y, p) :: b =>                                                          (* 305-315 *)
-              (mkT (t ++ [y]) (t_waiters s) b (t_limit s) (t_infl s) (t_cinfl s ++ [(i, p)]) (t_rlog s ++ [(i, OItem it)]) (t_pdone s)
-                   (t_alog s ++ [(i, it)]) (t_plog s) (set_thr s i (TCons n (S issued) CRes)), 70)
+              (mkT (t ++ [y]) (t_waiters s) (b) (t_limit s) (t_dead s) (t_infl s) (t_cinfl s ++ [(i, (p, 0))]) (t_rlog s ++ [(i, OItem it)]) (t_pdone s) (t_alog s ++ [(i, it)]) (t_plog s) (t_wlog s) (t_dlog s) (set_thr s i (TCons n (S issued) CRes)), 70)
           | [] =>                                                                   (* 203-209 / 318 *)
-              (mkT t (t_waiters s) [] (t_limit s) (t_infl s) (t_cinfl s) (t_rlog s ++ [(i, OItem it)]) (t_pdone s)
-                   (t_alog s ++ [(i, it)]) (t_plog s) (set_thr s i (TCons n (S issued) CWait)), 70)
+              (mkT (t) (t_waiters s) ([]) (t_limit s) (t_dead s) (t_infl s) (t_cinfl s) (t_rlog s ++ [(i, OItem it)]) (t_pdone s) (t_alog s ++ [(i, it)]) (t_plog s) (t_wlog s) (t_dlog s) (set_thr s i (TCons n (S issued) CRes)), 70)
           end
       end
   | Some (TCons n issued CRes) =>                                                   (* 316 *)
-      let '(ci, pd) := match afind i (t_cinfl s) with
-                       | Some p => (aremove i (t_cinfl s), t_pdone s ++ [p])
-                       | None => (t_cinfl s, t_pdone s)
-                       end in
-      (mkT (t_items s) (t_waiters s) (t_blocked s) (t_limit s) (t_infl s) ci (t_rlog s) pd (t_alog s) (t_plog s)
-           (set_thr s i (TCons n issued CWait)), 71)
+      let s1 := resolve_push s i in
+      (with_thr s1 (set_nth (t_thr s1) i (TCons n issued CWait)), 71)
   | Some (TCons n issued CWait) =>
-      (mkT (t_items s) (t_waiters s) (t_blocked s) (t_limit s) (t_infl s) (t_cinfl s) (t_rlog s) (t_pdone s) (t_alog s) (t_plog s)
-           (set_thr s i (TCons n issued CIdle)), 72)
+      (mkT (t_items s) (t_waiters s) (t_blocked s) (t_limit s) (t_dead s) (t_infl s) (t_cinfl s) (t_rlog s) (t_pdone s) (t_alog s) (t_plog s) (t_wlog s) (t_dlog s) (set_thr s i (TCons n issued CIdle)), 72)
   | Some (TUnb n e UIdle rets) =>
       match t_waiters s with
-      | [] => (mkT (t_items s) [] (t_blocked s) (t_limit s) (t_infl s) (t_cinfl s) (t_rlog s) (t_pdone s) (t_alog s) (t_plog s)   (* 225 *)
-                   (set_thr s i (TUnb n e UIdle (rets ++ [0]))), 70)
-      | c :: w => (mkT (t_items s) w (t_blocked s) (t_limit s) (t_infl s ++ [(i, (c, OExc e))]) (t_cinfl s) (t_rlog s) (t_pdone s)   (* 226-228 *)
-                       (t_alog s) (t_plog s) (set_thr s i (TUnb n e URes rets)), 70)
+      | [] => (mkT (t_items s) ([]) (t_blocked s) (t_limit s) (t_dead s) (t_infl s) (t_cinfl s) (t_rlog s) (t_pdone s) (t_alog s) (t_plog s) (t_wlog s) (t_dlog s) (set_thr s i (TUnb n e URes rets)), 70)                                                              (* 225 *)
+      | c :: w => (mkT (t_items s) (w) (t_blocked s) (t_limit s) (t_dead s) (t_infl s ++ [(i, (c, OExc e))]) (t_cinfl s) (t_rlog s) (t_pdone s) (t_alog s) (t_plog s) (t_wlog s) (t_dlog s) (set_thr s i (TUnb n e URes rets)), 70)                                                          (* 226-228 *)
       end
   | Some (TUnb n e URes rets) =>                                                    (* 229 *)
-      let s1 := match afind i (t_infl s) with
-                | Some (c, o) => mkT (t_items s) (t_waiters s) (t_blocked s) (t_limit s) (aremove i (t_infl s)) (t_cinfl s)
-                                     (t_rlog s ++ [(c, o)]) (t_pdone s) (t_alog s) (t_plog s) (t_thr s)
-                | None => s
-                end in
-      (mkT (t_items s1) (t_waiters s1) (t_blocked s1) (t_limit s1) (t_infl s1) (t_cinfl s1) (t_rlog s1) (t_pdone s1)
-           (t_alog s1) (t_plog s1) (set_thr s1 i (TUnb n e UIdle (rets ++ [1]))), 71)
+      let s1 := resolve_pop s i in
+      (with_thr s1 (set_nth (t_thr s1) i (TUnb n e UIdle (rets ++ [if afind i (t_infl s) then 1 else 0]))), 71)
+  | Some (TUnbPush n e UIdle rets) =>
+      match t_blocked s with
+      | [] => (mkT (t_items s) (t_waiters s) ([]) (t_limit s) (t_dead s) (t_infl s) (t_cinfl s) (t_rlog s) (t_pdone s) (t_alog s) (t_plog s) (t_wlog s) (t_dlog s) (set_thr s i (TUnbPush n e URes rets)), 70)                                                              (* 339 *)
+      | (y, p) :: b => (mkT (t_items s) (t_waiters s) (b) (t_limit s) (t_dead s) (t_infl s) (t_cinfl s ++ [(i, (p, e))]) (t_rlog s) (t_pdone s) (t_alog s) (t_plog s) (t_wlog s ++ [y]) (t_dlog s) (set_thr s i (TUnbPush n e URes rets)), 70)                                                     (* 340-342 *)
+      end
+  | Some (TUnbPush n e URes rets) =>                                                (* 343 *)
+      let s1 := resolve_push s i in
+      (with_thr s1 (set_nth (t_thr s1) i (TUnbPush n e UIdle (rets ++ [if afind i (t_cinfl s) then 1 else 0]))), 71)
+  | Some (TSize n UIdle rets) =>                                                    (* 176-179 *)
+      (mkT (t_items s) (t_waiters s) (t_blocked s) (t_limit s) (t_dead s) (t_infl s) (t_cinfl s) (t_rlog s) (t_pdone s) (t_alog s) (t_plog s) (t_wlog s) (t_dlog s) (set_thr s i (TSize n URes (rets ++ [zlen (t_items s)]))), 70)
+  | Some (TSize n URes rets) =>
+      (mkT (t_items s) (t_waiters s) (t_blocked s) (t_limit s) (t_dead s) (t_infl s) (t_cinfl s) (t_rlog s) (t_pdone s) (t_alog s) (t_plog s) (t_wlog s) (t_dlog s) (set_thr s i (TSize n UIdle rets)), 71)
+  | Some (TDestroy d) =>                                                            (* ~limited_queue / ~queue *)
+      (mkT ([]) ([]) ([]) (t_limit s) (true) (t_infl s) (t_cinfl s) (t_rlog s ++ map (fun c => (c, OCancel)) (t_waiters s)) (t_pdone s ++ map (fun b => (snd b, -1)) (t_blocked s)) (t_alog s) (t_plog s) (t_wlog s) (t_dlog s ++ t_items s ++ map fst (t_blocked s)) (set_thr s i (TDestroy true)), 73)
   | None => (s, 0)
   end.
 
@@ -739,46 +772,62 @@ Fixpoint t_run_sched (fuel : nat) (s : tstate) (sched : list Z) (tr : list (list
       end
   end.
 
-Definition t_decode_thr (l : list Z) : list thr :=
+(* thread declarations: 1 v.. producer | 2 n consumer | 3 n e unblock_pop | 4 n size | 5 destroy | 6 n e unblock_push (limited only) *)
+Definition t_decode_thr (lim : bool) (l : list Z) : list thr :=
   match l with
   | 1 :: vals => [TProd vals 0 PIdle 0 []]
   | [2; n] => if 0 <=? n then [TCons (Z.to_nat n) 0 CIdle] else []
   | [3; n; e] => if 0 <=? n then [TUnb (Z.to_nat n) e UIdle []] else []
+  | [4; n] => if 0 <=? n then [TSize (Z.to_nat n) UIdle []] else []
+  | [5] => [TDestroy false]
+  | [6; n; e] => if lim && (0 <=? n) then [TUnbPush (Z.to_nat n) e UIdle []] else []
   | _ => []
   end.
 Definition t_decode_sched (l : list Z) : list Z := match l with 9 :: r => r | _ => [] end.
 Definition t_decode_limit (l : list Z) : list Z := match l with [0; n] => [n] | _ => [] end.
 
-Definition t_init (limit : option Z) (thrs : list thr) : tstate := mkT [] [] [] limit [] [] [] [] [] [] thrs.
+Definition t_init (limit : option Z) (thrs : list thr) : tstate := mkT [] [] [] limit false [] [] [] [] [] [] [] [] thrs.
 
 Definition t_work (t : thr) : nat :=
-  match t with TProd vals _ _ _ _ => 3 * length vals | TCons n _ _ => 3 * n | TUnb n _ _ _ => 2 * n end.
+  match t with
+  | TProd vals _ _ _ _ => 3 * length vals | TCons n _ _ => 3 * n | TUnb n _ _ _ => 2 * n | TUnbPush n _ _ _ => 2 * n
+  | TSize n _ _ => 2 * n | TDestroy _ => 1
+  end.
 Definition t_fuel (thrs : list thr) : nat := fold_right (fun t a => (t_work t + a)%nat) 4%nat thrs.
 
-Definition t_finished (t : thr) : bool :=
+Definition t_finished (dead : bool) (t : thr) : bool :=
   match t with
-  | TProd vals k PIdle _ _ => Nat.eqb k (length vals)
-  | TCons n issued CIdle => Nat.eqb issued n
-  | TUnb n _ UIdle rets => Nat.eqb (length rets) n
+  | TProd vals k PIdle _ _ => dead || Nat.eqb k (length vals)
+  | TCons n issued CIdle => dead || Nat.eqb issued n
+  | TUnb n _ UIdle rets => dead || Nat.eqb (length rets) n
+  | TUnbPush n _ UIdle rets => dead || Nat.eqb (length rets) n
+  | TSize n UIdle rets => dead || Nat.eqb (length rets) n
+  | TDestroy d => d
   | _ => false
   end.
-Fixpoint t_stuck (l : list thr) (i : nat) : list Z :=
-  match l with [] => [] | t :: r => (if t_finished t then [] else [Z.of_nat i]) ++ t_stuck r (S i) end.
+Fixpoint t_stuck (dead : bool) (l : list thr) (i : nat) : list Z :=
+  match l with [] => [] | t :: r => (if t_finished dead t then [] else [Z.of_nat i]) ++ t_stuck dead r (S i) end.
 
-Definition enc_outcome (o : outcome) : Z := match o with OItem it => it_v it | OExc e => - e end.
+Definition enc_outcome (o : outcome) : Z := match o with OItem it => it_v it | OExc e => - e | OCancel => -1000000 end.
 Definition t_received (s : tstate) (c : nat) : list Z :=
   map (fun x => enc_outcome (snd x)) (filter (fun x => Nat.eqb c (fst x)) (t_rlog s)).
 
-(* per-thread result line.  limited_queue::push returns a future, so "handed over" and "enqueued" look alike: both 0 *)
+(* per-thread result line: tid, kind of thread, results.
+   limited_queue::push returns a future<void>; the caller reads it after the call has returned (and the lock was released),
+   so "handed over" (1), "enqueued" (0) and "was blocked, then admitted" (2) all look alike: completed = 0 *)
 Definition t_thr_obs (lim : bool) (s : tstate) (i : nat) (t : thr) : list Z :=
   match t with
-  | TProd _ _ _ _ rets => Z.of_nat i :: 1 :: (if lim then map (fun r => if r =? 1 then 0 else r) rets else rets)
+  | TProd _ _ _ _ rets => Z.of_nat i :: 1 :: (if lim then map (fun r => if r <=? 2 then 0 else r) rets else rets)
   | TCons _ _ _ => Z.of_nat i :: 2 :: t_received s i
   | TUnb _ _ _ rets => Z.of_nat i :: 3 :: rets
+  | TSize _ _ rets => Z.of_nat i :: 4 :: rets
+  | TDestroy d => [Z.of_nat i; 5; b2z d]
+  | TUnbPush _ _ _ rets => Z.of_nat i :: 6 :: rets
   end.
 Fixpoint t_thr_obs_all (lim : bool) (s : tstate) (l : list thr) (i : nat) : list (list Z) :=
   match l with [] => [] | t :: r => t_thr_obs lim s i t :: t_thr_obs_all lim s r (S i) end.
 
+(* what is left: size(), then the items a drain would pop (queued items, then the items of blocked pushes) *)
 Definition t_final_obs (s : tstate) : list Z :=
   9 :: zlen (t_items s) :: map it_v (t_items s) ++ map (fun b => it_v (fst b)) (t_blocked s).
 
@@ -793,40 +842,40 @@ Definition t_exec (lim : bool) (ops : list (list Z)) : option tstate * list (lis
   match t_limit_of lim ops with
   | None => (None, [])
   | Some l =>
-      let thrs := flat_map t_decode_thr ops in
+      let thrs := flat_map (t_decode_thr lim) ops in
       let '(s, tr) := t_run_sched (t_fuel thrs) (t_init l thrs) (flat_map t_decode_sched ops) [] in
       (Some s, tr)
   end.
 
+Definition t_obs_of (lim : bool) (s : tstate) (tr : list (list Z)) : list (list Z) :=
+  tr ++ (match t_stuck (t_dead s) (t_thr s) 0 with [] => [] | st => [777 :: st] end)
+     ++ t_thr_obs_all lim s (t_thr s) 0 ++ [t_final_obs s].
+
 Definition tq_run (lim : bool) (ops : list (list Z)) : list (list Z) :=
   match t_exec lim ops with
   | (None, _) => [rejected]
-  | (Some s, tr) =>
-      tr ++ (match t_stuck (t_thr s) 0 with [] => [] | st => [777 :: st] end)
-         ++ t_thr_obs_all lim s (t_thr s) 0 ++ [t_final_obs s]
+  | (Some s, tr) => t_obs_of lim s tr
   end.
 
-(* ---------- oracle for the controlled-thread engines, evaluated on the IMPLEMENTATION's trace ----------
-   (a) no value is received twice; (b) without deadlock the received values plus the drained rest are exactly the
-   pushed values (multiset); (c) every consumer sees every producer's values in that producer's push order;
-   (d) FIFO on the linearisation the trace reports: replaying the critical sections (code-70 steps, in trace order)
-   on the FIFO specification qs_step gives every consumer exactly the outcomes it reported, and the drained rest. *)
-Fixpoint subseq_b (a b : list Z) : bool :=
-  match a, b with
-  | [], _ => true
-  | _ :: _, [] => false
-  | x :: t, y :: u => if x =? y then subseq_b t u else subseq_b a u
-  end.
+(* ---------- reference specification for the thread engines: an ATOMIC bounded FIFO at thread level ----------
+   Every operation is one indivisible step (no unlock/resolve gap, no futures): a FIFO of entries (value, Some p while
+   producer p's push is still pending on it), a FIFO of waiting consumers, and logs of what every thread is told.
+   The oracle replays the critical sections of an observed trace, in trace order, on this machine. *)
+Record astate := mkA {
+  a_fifo : list (Z * option nat);
+  a_pend : list nat;
+  a_limit : option Z;
+  a_dead : bool;
+  a_cres : list (nat * Z);       (* consumer results: (consumer, encoded outcome) *)
+  a_pcls : list (nat * Z);       (* producer push classes at push time: 0 admitted, 1 handed over, 2 blocked *)
+  a_ures : list (nat * Z);       (* results of unblock_pop / unblock_push / size / destroy calls *)
+  a_cnt : list nat               (* critical sections entered, per thread *)
+}.
+Definition a_init (limit : option Z) (n : nat) : astate := mkA [] [] limit false [] [] [] (repeat 0%nat n).
 
-Definition is_trace2 (l : list Z) : bool := match l with [a; c] => (70 <=? c) && (c <=? 72) && negb (a =? 777) | _ => false end.
-Fixpoint take_trace (obs : list (list Z)) : list (list Z) * list (list Z) :=
-  match obs with
-  | l :: t => if is_trace2 l then let '(a, b) := take_trace t in (l :: a, b) else ([], obs)
-  | [] => ([], [])
-  end.
-
-(* per-thread progress while replaying the trace: how many critical sections each thread has entered *)
-Definition nth_count (l : list nat) (i : nat) : nat := nth i l 0%nat.
+Definition a_size (a : astate) : Z := zlen (filter admitted (a_fifo a)).
+Definition a_full (a : astate) : bool :=
+  match a_limit a with Some l => zlen (a_fifo a) >=? l | None => false end.
 Fixpoint bump (l : list nat) (i : nat) : list nat :=
   match l, i with
   | [], _ => []
@@ -834,42 +883,70 @@ Fixpoint bump (l : list nat) (i : nat) : list nat :=
   | x :: t, S j => x :: bump t j
   end.
 
-(* trace -> ops of the FIFO specification + the consumer of every pop *)
-Fixpoint lin (thrs : list thr) (tr : list (list Z)) (cnt : list nat) : list qop * list nat :=
-  match tr with
-  | [i; 70] :: t =>
-      let n := Z.to_nat i in
-      let '(ops, who) := lin thrs t (bump cnt n) in
-      match nth_error thrs n with
-      | Some (TProd vals _ _ _ _) => (QPush (nth (nth_count cnt n) vals 0) :: ops, who)
-      | Some (TCons _ _ _) => (QPop :: ops, n :: who)
-      | Some (TUnb _ e _ _) => (QUnblockPop e :: ops, who)
-      | None => (QBad :: ops, who)
+Definition astep (thrs : list thr) (a : astate) (i : nat) : astate :=
+  let cnt := bump (a_cnt a) i in
+  let n := nth i (a_cnt a) 0%nat in
+  if a_dead a then a else
+  match nth_error thrs i with
+  | Some (TProd vals _ _ _ _) =>
+      let v := nth n vals 0 in
+      match a_pend a with
+      | c :: w => mkA (a_fifo a) w (a_limit a) false (a_cres a ++ [(c, v)]) (a_pcls a ++ [(i, 1)]) (a_ures a) cnt
+      | [] => if a_full a
+              then mkA (a_fifo a ++ [(v, Some i)]) [] (a_limit a) false (a_cres a) (a_pcls a ++ [(i, 2)]) (a_ures a) cnt
+              else mkA (a_fifo a ++ [(v, None)]) [] (a_limit a) false (a_cres a) (a_pcls a ++ [(i, 0)]) (a_ures a) cnt
       end
-  | _ :: t => lin thrs t cnt
+  | Some (TCons _ _ _) =>
+      match a_fifo a with
+      | [] => mkA [] (a_pend a ++ [i]) (a_limit a) false (a_cres a) (a_pcls a) (a_ures a) cnt
+      | (v, _) :: t => mkA (fst (admit_first t)) (a_pend a) (a_limit a) false (a_cres a ++ [(i, v)]) (a_pcls a) (a_ures a) cnt
+      end
+  | Some (TUnb _ e _ _) =>
+      match a_pend a with
+      | [] => mkA (a_fifo a) [] (a_limit a) false (a_cres a) (a_pcls a) (a_ures a ++ [(i, 0)]) cnt
+      | c :: w => mkA (a_fifo a) w (a_limit a) false (a_cres a ++ [(c, - e)]) (a_pcls a) (a_ures a ++ [(i, 1)]) cnt
+      end
+  | Some (TUnbPush _ e _ _) =>
+      match drop_first (a_fifo a) with
+      | (_, None) => mkA (a_fifo a) (a_pend a) (a_limit a) false (a_cres a) (a_pcls a) (a_ures a ++ [(i, 0)]) cnt
+      | (f1, Some _) => mkA f1 (a_pend a) (a_limit a) false (a_cres a) (a_pcls a) (a_ures a ++ [(i, 1)]) cnt
+      end
+  | Some (TSize _ _ _) => mkA (a_fifo a) (a_pend a) (a_limit a) false (a_cres a) (a_pcls a) (a_ures a ++ [(i, a_size a)]) cnt
+  | Some (TDestroy _) =>
+      mkA [] [] (a_limit a) true (a_cres a ++ map (fun c => (c, -1000000)) (a_pend a)) (a_pcls a) (a_ures a ++ [(i, 1)]) cnt
+  | None => a
+  end.
+
+(* replay: only the critical sections (70) and the destruction (73) are operations of the specification *)
+Definition is_cs (l : list Z) : option nat :=
+  match l with
+  | [i; c] => if ((c =? 70) || (c =? 73)) && (0 <=? i) then Some (Z.to_nat i) else None
+  | _ => None
+  end.
+Definition areplay (thrs : list thr) (a : astate) (tr : list (list Z)) : astate :=
+  fold_left (fun a l => match is_cs l with Some i => astep thrs a i | None => a end) tr a.
+
+Definition is_trace2 (l : list Z) : bool := match l with [a; c] => (70 <=? c) && (c <=? 73) && negb (a =? 777) | _ => false end.
+Fixpoint take_trace (obs : list (list Z)) : list (list Z) * list (list Z) :=
+  match obs with
+  | l :: t => if is_trace2 l then let '(a, b) := take_trace t in (l :: a, b) else ([], obs)
   | [] => ([], [])
   end.
 
-Definition enc_fstate (f : fstate) : list Z :=
-  match f with FValue v => [v] | FExc e => [- e] | _ => [] end.
-Fixpoint expected_for (c : nat) (who : list nat) (fs : list fstate) : list Z :=
-  match who, fs with
-  | w :: t, f :: u => (if Nat.eqb w c then enc_fstate f else []) ++ expected_for c t u
-  | _, _ => []
-  end.
+Definition sel (i : nat) (l : list (nat * Z)) : list Z := map snd (filter (fun x => Nat.eqb i (fst x)) l).
 
-Definition result_line (obs : list (list Z)) (i : nat) (kind : Z) : option (list Z) :=
-  match filter (fun l => match l with a :: b :: _ => (a =? Z.of_nat i) && (b =? kind) | _ => false end) obs with
-  | (_ :: _ :: r) :: _ => Some r
+(* layout of an observation: trace lines, an optional deadlock line "777 stuck..", one result line per thread in thread
+   order ("tid kind results.."), the final line "9 size drained.." *)
+Definition result_line (lines : list (list Z)) (i : nat) : option (list Z) :=
+  match nth i lines [] with
+  | a :: b :: r => if (a =? Z.of_nat i) && (1 <=? b) && (b <=? 6) then Some r else None
   | _ => None
   end.
-Definition final_line (obs : list (list Z)) : option (list Z) :=
-  match filter (fun l => match l with 9 :: _ :: _ => true | _ => false end) obs with
-  | (_ :: _ :: r) :: _ => Some r
-  | _ => None
+Definition split_stuck (rest : list (list Z)) : list Z * list (list Z) :=
+  match rest with
+  | (777 :: st) :: r => (st, r)
+  | _ => ([], rest)
   end.
-Definition has_deadlock (obs : list (list Z)) : bool :=
-  existsb (fun l => match l with 777 :: _ => true | _ => false end) obs.
 
 Fixpoint zlist_eqb' (a b : list Z) : bool :=
   match a, b with
@@ -878,34 +955,128 @@ Fixpoint zlist_eqb' (a b : list Z) : bool :=
   | _, _ => false
   end.
 
-Definition positives (l : list Z) : list Z := filter (fun v => 0 <? v) l.
+(* a reported push result against the class the specification gave the push (0 admitted, 1 handed over, 2 blocked):
+   queue<T>::push reports "woke somebody" = class; a limited_queue push that failed or was canceled must have been blocked *)
+Definition class_ok (lim : bool) (rc : Z * Z) : bool :=
+  let '(r, c) := rc in if lim then (r <? 99) || (c =? 2) else r =? c.
+Definition classes_ok (lim : bool) (r spec : list Z) : bool :=
+  Nat.leb (length r) (length spec) && forallb (class_ok lim) (combine r spec).
 
-Fixpoint consumer_ids (thrs : list thr) (i : nat) : list nat :=
-  match thrs with
-  | [] => []
-  | TCons _ _ _ :: r => i :: consumer_ids r (S i)
-  | _ :: r => consumer_ids r (S i)
+(* what thread i reported must be what the specification tells it, for as many operations as it completed; a thread
+   that is not stuck completed every operation it entered; a stuck thread is at most one operation behind *)
+Definition thread_ok (lim : bool) (thrs : list thr) (a : astate) (rest : list (list Z)) (stuck : list Z) (i : nat) (t : thr) : bool :=
+  match result_line rest i with
+  | None => false
+  | Some r =>
+      let entered := nth i (a_cnt a) 0%nat in
+      let is_stuck := memz (Z.of_nat i) stuck in
+      let cnt_ok := if is_stuck then Nat.leb (length r) entered && Nat.leb entered (S (length r)) else Nat.eqb (length r) entered in
+      match t with
+      | TProd _ _ _ _ _ => classes_ok lim r (sel i (a_pcls a)) && cnt_ok
+      | TCons _ _ _ => prefix_b r (sel i (a_cres a)) && cnt_ok
+      | TDestroy _ => match r with [d] => if is_stuck then d =? 0 else (d =? 1) && Nat.eqb entered 1 | _ => false end
+      | _ => prefix_b r (sel i (a_ures a)) && cnt_ok
+      end
   end.
-Definition producer_vals (thrs : list thr) : list (list Z) :=
-  flat_map (fun t => match t with TProd vals _ _ _ _ => [vals] | _ => [] end) thrs.
 
+Fixpoint threads_ok (lim : bool) (thrs : list thr) (a : astate) (rest : list (list Z)) (stuck : list Z) (l : list thr) (i : nat) : bool :=
+  match l with
+  | [] => true
+  | t :: r => thread_ok lim thrs a rest stuck i t && threads_ok lim thrs a rest stuck r (S i)
+  end.
+
+(* ---------- oracle for the controlled-thread engines, evaluated on the IMPLEMENTATION's trace ----------
+   Replaying the critical sections of the trace, in trace order, on the atomic bounded FIFO: every consumer reported
+   exactly the outcomes the FIFO gives it (each item once, in push order, waiting pops served in arrival order,
+   unblock_pop hits the oldest waiter, destruction cancels), every producer's pushes were admitted / handed over /
+   blocked exactly when the FIFO says, size / unblock results agree, what is left in the queue is what the FIFO holds,
+   and every operation a thread reports corresponds to exactly one critical section of that thread in the trace. *)
 Definition tq_oracle (lim : bool) (ops obs : list (list Z)) : bool :=
   match t_limit_of lim ops with
   | None => match obs with [[1]] => true | _ => false end
-  | Some _ =>
-      let thrs := flat_map t_decode_thr ops in
+  | Some limit =>
+      let thrs := flat_map (t_decode_thr lim) ops in
       let '(tr, rest) := take_trace obs in
-      let cons := consumer_ids thrs 0 in
-      let recv := map (fun c => match result_line rest c 2 with Some r => r | None => [-999999] end) cons in
-      let drained := match final_line rest with Some r => r | None => [-999999] end in
-      let got := flat_map positives recv in
-      let pv := producer_vals thrs in
-      let '(sops, who) := lin thrs tr (map (fun _ => 0%nat) thrs) in
-      let sfin := snd (qs_run_from qs0 sops) in
-      nodup_b (got ++ drained)                                                                         (* a *)
-      && (if has_deadlock rest then forallb (fun v => memz v (concat pv)) (got ++ drained)
-          else perm_b (got ++ drained) (concat pv))                                                    (* b *)
-      && forallb (fun r => forallb (fun vals => subseq_b (filter (fun v => memz v vals) (positives r ++ drained)) vals) pv) recv   (* c *)
-      && forallb (fun cr => zlist_eqb' (snd cr) (expected_for (fst cr) who (s_futs sfin))) (combine cons recv)   (* d *)
-      && zlist_eqb' drained (match bal sfin with BItems l => l | BWait _ => [] end)
+      let '(stuck, rest1) := split_stuck rest in
+      let a := areplay thrs (a_init limit (length thrs)) tr in
+      Nat.eqb (length rest1) (S (length thrs))
+      && threads_ok lim thrs a (firstn (length thrs) rest1) stuck thrs 0
+      && match nth (length thrs) rest1 [] with
+         | 9 :: sz :: drained => (sz =? a_size a) && zlist_eqb' drained (map fst (a_fifo a))
+         | _ => false
+         end
   end.
+
+(* =====================================================================================
+   Callback consumers (engine qcb): a consumer that is not a coroutine but a callback awaiter
+   (call_fn_future_awaiter, future.h 1023-1061) whose completion callback records the outcome and asks for the next
+   item from inside the callback (`start()` again) while its budget lasts.  The callback runs synchronously inside the
+   promise resolution, which queue.h performs AFTER leaving the critical section (153-154, 228-229), so the nested pop()
+   is an ordinary pop issued in the middle of the push / unblock_pop.  A canceled outcome (queue destroyed) ends the consumer.
+   ===================================================================================== *)
+Inductive cop := COp (x : qop) | CPopCb (k : nat) | CBad.
+Record cqueue := mkCQ { cbase : queue; cbud : list (nat * nat) }.    (* parked callback pops: future id -> re-pops left *)
+Definition cq0 : cqueue := mkCQ q0 [].
+
+Definition is_pending (f : fstate) : bool := match f with FPending => true | _ => false end.
+
+(* the callback of a pop that just completed (value or exception) with k re-pops left *)
+Fixpoint cb_chain (k : nat) (q : queue) (cb : list (nat * nat)) : queue * list (nat * nat) :=
+  match k with
+  | O => (q, cb)
+  | S k' =>
+      let '(q1, id) := q_pop q in
+      if is_pending (fget (futs q1) id) then (q1, cb ++ [(id, k')]) else cb_chain k' q1 cb
+  end.
+
+Definition head_waiter (q : queue) : option nat := match waiters q with p :: _ => Some p | [] => None end.
+
+Definition cq_after_resolve (old : queue) (q1 : queue) (cb : list (nat * nat)) : queue * list (nat * nat) :=
+  match head_waiter old with
+  | Some p => match afind p cb with
+              | Some k => cb_chain k q1 (aremove p cb)
+              | None => (q1, cb)
+              end
+  | None => (q1, cb)
+  end.
+
+Definition cq_step (s : cqueue) (x : cop) : cqueue * list Z :=
+  let q := cbase s in
+  if negb (alive q) then (s, rejected) else
+  match x with
+  | CPopCb k =>
+      let '(q1, id) := q_pop q in
+      let '(q2, cb) := if is_pending (fget (futs q1) id) then (q1, cbud s ++ [(id, k)]) else cb_chain k q1 (cbud s) in
+      (mkCQ q2 cb, q_obs q q2 (Z.of_nat id))
+  | COp (QPush v) =>
+      let '(q1, r) := q_push q v in
+      let '(q2, cb) := if r then cq_after_resolve q q1 (cbud s) else (q1, cbud s) in
+      (mkCQ q2 cb, q_obs q q2 (b2z r))
+  | COp (QUnblockPop e) =>
+      let '(q1, r) := q_unblock_pop q e in
+      let '(q2, cb) := if r then cq_after_resolve q q1 (cbud s) else (q1, cbud s) in
+      (mkCQ q2 cb, q_obs q q2 (b2z r))
+  | COp QDestroy => let q1 := q_destroy q in (mkCQ q1 [], q_obs q q1 0)
+  | COp QPop => let '(q1, o) := q_step q QPop in (mkCQ q1 (cbud s), o)
+  | COp QSize => let '(q1, o) := q_step q QSize in (mkCQ q1 (cbud s), o)
+  | _ => (s, rejected)
+  end.
+
+Fixpoint cq_run_from (s : cqueue) (l : list cop) : list (list Z) * cqueue :=
+  match l with
+  | [] => ([], s)
+  | x :: t => let '(s1, o) := cq_step s x in
+              let '(os, s2) := cq_run_from s1 t in (o :: os, s2)
+  end.
+
+Definition cq_decode (l : list Z) : cop :=
+  match l with
+  | [6; k] => if 0 <=? k then CPopCb (Z.to_nat k) else CBad
+  | [1; _] | [2] | [3; _] | [4] | [5] => COp (q_decode l)
+  | _ => CBad
+  end.
+Definition cq_run (ops : list (list Z)) : list (list Z) := fst (cq_run_from cq0 (map cq_decode ops)).
+
+(* oracle on the implementation's trace: values reported by the pop futures, read in future-id (= pop arrival) order,
+   are a duplicate-free prefix of the pushed values *)
+Definition cq_oracle (ops obs : list (list Z)) : bool := q2_oracle ops obs.
